@@ -11,12 +11,23 @@ from ..gen import c18_cases as gen
 from ..oracle import c18_pn as O
 from .. import cover, monitor
 
-RULE = ('surfaces: round-robin over 8 shift-vector classes (rectangular/oblique in cubic, hexagonal (3- and 4-index), '
-        'triclinic cells and Cartesian vectors without a cell) x 7 grids (4x4..12x10) x open/duplicated-edge layout x '
+RULE = ('surfaces: round-robin over 11 shift-vector classes (rectangular/oblique in cubic, hexagonal (3- and 4-index), orthorhombic, '
+        'monoclinic, triclinic cells and Cartesian vectors without a cell) x 7 grids (4x4..12x10) x open/duplicated-edge layout x '
         'with/without plane separation x smooth/rough data x row order; per surface: every node, 12 generic + 11 '
         'boundary query points x 6 integer period pairs, position sets of N = 1,2,3,4,17 plus a single (3,) position, '
-        'three model encodings.  PN: the 16 finite-difference/stress flag settings x 4 cell classes x isotropic/Stroh K x '
-        '5 profile classes x 3 tau x 5 alpha x 4 beta classes x 6 grid sizes.  A case is non-trivial when the data are '
+        'three model encodings; alternative shift vectors (7 classes: sum, diff, swap, only a1vect, only a2vect, general integer '
+        'combination, fractional) x 3 ways of fixing the plotting x axis (left to be derived from the given a1vect, explicit along the '
+        'saved a1, explicit along another in-plane direction) x scalar/N=3/N=6 positions: all six conversions, all mutual-inverse pairs with '
+        'the SAME keywords on both sides, and the a1/a2, pos and x/y query forms of E_gsf and delta.  gamma-surface histories (7 modes): '
+        'one object is given data B after it held (and answered queries on) data A - set() twice, set() then model(model=), model then set(), '
+        'empty then set(), same shape other data (plane separations kept/added/dropped), same vectors other data, A-B-A - and is judged '
+        'against the oracle and a freshly constructed surface.  PN: the 16 finite-difference/stress flag settings x 4 cell classes x '
+        'isotropic/Stroh K x 5 profile classes x 3 tau x 5 alpha x 4 beta classes x 6 grid sizes.  PN histories: ONE SDVPN object goes '
+        'through 5 of 12 change kinds (x grid: same length other spacing / other length / shifted; disregistry; tau; alpha; beta; cutoff; '
+        'finite-difference and stress flags; K tensor via load(); gamma-surface data via gamma.set(); solve() with every setting as a '
+        'keyword), first kind = case index mod 12, stride 1/5/7/11, x and disregistry passed as arguments or stored on the object in turn; '
+        'after construction and after every change each of the six terms and the total are judged against the oracle evaluated for the '
+        'settings REQUESTED so far and against a freshly constructed object.  A case is non-trivial when the data are '
         'not constant and the shift vectors are neither unit Cartesian axes; distinct = fingerprint of the inputs.')
 ASSUMPTIONS = ['gamma-surface data are periodic (a duplicated a=1 edge carries the a=0 values) on uniform grids that contain 0',
                'node tolerance 1e-8 of the data range (observed < 1e-12); periodicity / coordinate-interchange tolerance 1e-10 of the range x basis condition number '
@@ -26,6 +37,12 @@ ASSUMPTIONS = ['gamma-surface data are periodic (a duplicated a=1 edge carries t
                '(oracle, 1-D quadrature) within grid step/zeta* + 2 %, and with the classical value within that plus the window shift',
                'stress term with fullstress=False: sign as implemented/explained in the docstring note (tau flipped), fixed '
                'independently by the summation-by-parts identity with the full expression',
+               'alternative a1vect=/a2vect= keywords are three-index crystal vectors of the saved box (as their docstrings say); with xvect left at None the '
+               'plotting x axis is the Cartesian image of the given a1vect (else of the saved one), the plane normal and handedness stay those of the saved vectors',
+               'the energy / plane separation of a position does not depend on which vectors or which of the three coordinate forms name it '
+               '(E_gsf(pos=, a1vect=..) and E_gsf(x=, y=, a1vect=..) are judged by that; see KNOWN_FINDINGS)',
+               'a re-used object is compared with a freshly constructed one at 1e-11 of the term magnitude (identical arithmetic is expected); '
+               'the K tensor of an existing SDVPN object can only be replaced through load(model), so that is the history step used',
                'oracle shares numpy/scipy with the code under test']
 CONFIG = {'quick': {'timeout': 900}, 'thorough': {'timeout': 3600}}
 
@@ -319,27 +336,9 @@ def surface_case(ctx, am, i):
             rec.close(1e-10 * rng_ * kappa, float(np.asarray(f(x=float(x1[0]), y=float(y1[0]), **kx)).reshape(-1)[0]), e_a,
                       f'{name}(x=, y=) = {name}(a1=, a2=)', f'interchange:{name}:single:xy')
         rec.count('conv:single')
-    # alternative shift vectors: coordinates along (a1+a2, a2) or (a1, a2-a1) name the same positions
+    # alternative shift vectors (every case; class by case index): all conversions and query forms
+    altvect_block(ctx, gs, S, pl, funcs, i, as_list)
     if i % 3 == 1 and S['boxvects'] is not None or i % 6 == 4:
-        u1 = np.array(O.three_index(S['a1vect']))
-        u2 = np.array(O.three_index(S['a2vect']))
-        v1, v2 = (u1 + u2, u2) if i % 2 else (u1, u2 - u1)
-        pla = plane_of(S, a1=v1, a2=v2)
-        for N in (3, 5):
-            ab = rng.uniform(-1, 2, (N, 2))
-            pos_alt = pla.a12_to_pos(ab[:, 0], ab[:, 1])
-            s1, s2 = pl.pos_to_a12(pos_alt)
-            with ctx.guard('E_gsf accepts alternative shift vectors', f'altvect:exception:N={N}'):
-                got = gs.E_gsf(a1=ab[:, 0], a2=ab[:, 1], a1vect=v1, a2vect=v2)
-                exp = gs.E_gsf(a1=s1, a2=s2)
-                rec.close(1e-10 * R * kappa, got, exp, 'E_gsf(a1, a2, a1vect=, a2vect=) is the energy at the same Cartesian position', f'altvect:E_gsf:N={N}')
-                pa = gs.a12_to_pos(ab[:, 0], ab[:, 1], a1vect=v1, a2vect=v2)
-                rec.close(1e-12 * L * 8, pa, pos_alt, 'a12_to_pos with alternative vectors', f'altvect:a12_to_pos:N={N}')
-                r1, r2 = gs.pos_to_a12(pos_alt, a1vect=v1, a2vect=v2)
-                kap2 = np.linalg.cond(np.array([pla.A1, pla.A2]).T)
-                rec.close(1e-9 * kap2 * 4, r1, ab[:, 0], 'pos_to_a12 with alternative vectors', f'altvect:pos_to_a12:N={N}')
-                rec.close(1e-9 * kap2 * 4, r2, ab[:, 1], 'pos_to_a12 with alternative vectors', f'altvect:pos_to_a12:N={N}')
-                rec.count('altvect')
         # 2-D arrays of fractional coordinates (the layout the plotting code uses)
         A1g, A2g = np.meshgrid(np.linspace(0, 1, 4), np.linspace(0, 1, 3))
         with ctx.guard('E_gsf accepts 2-D coordinate arrays', 'grid2d:exception'):
@@ -380,42 +379,211 @@ def surface_case(ctx, am, i):
 
 
 # ----------------------------------------------------------------------------
+# alternative shift vectors handed to the conversions and to E_gsf / delta
+# ----------------------------------------------------------------------------
+def box_class(S):
+    if S['boxvects'] is None:
+        return 'nobox'
+    return 'cubic' if S['cellkind'] == 'cubic' else 'noncubic'
+
+
+def altvect_block(ctx, gs, S, pl, funcs, i, as_list):
+    """Conversions and queries with a1vect= / a2vect= (both, or only one) and the three ways of
+    fixing the plotting x axis: derived (xvect left at None: along the Cartesian image of the given
+    a1vect, else of the saved one), explicit along the saved a1 vector, explicit along another
+    in-plane direction.  Every pair of mutually inverse conversions gets the SAME keyword arguments."""
+    rec, rng = ctx.rec, ctx.rng
+    u1 = np.array(O.three_index(S['a1vect']))
+    u2 = np.array(O.three_index(S['a2vect']))
+    kind = gen.alt_kind(i)
+    v1, v2 = gen.alt_vectors(rng, kind, u1, u2)
+    conv = (lambda v: [float(t) for t in v]) if as_list else (lambda v: np.asarray(v, float))
+    kv = {}
+    if v1 is not None:
+        kv['a1vect'] = conv(v1)
+    if v2 is not None:
+        kv['a2vect'] = conv(v2)
+    pla = plane_of(S, a1=v1, a2=v2)          # the vectors the fractional coordinates refer to
+    bcls = box_class(S)
+    rec.count('altvect:kind:' + kind)
+    rec.count('altvect:box:' + bcls)
+    rec.count('altvect:given:' + '+'.join(sorted(kv)))
+    if v1 is not None:
+        # the class in which "crystal vector" and "Cartesian vector" are different directions
+        raw = O.unit(v1)
+        rec.count('altvect:a1vect-raw-direction-differs', int(np.linalg.norm(np.cross(raw, O.unit(pla.A1))) > 1e-3))
+    L = max(np.linalg.norm(t) for t in (pl.A1, pl.A2, pla.A1, pla.A2))
+    kap_n = np.linalg.cond(np.array([pl.A1, pl.A2]).T)
+    kap_a = np.linalg.cond(np.array([pla.A1, pla.A2]).T)
+    c1_, c2_ = rng.uniform(0.3, 1.5), rng.uniform(0.3, 1.5) * rng.choice([-1, 1])
+    xmodes = [('derived', None), ('explicit-saved', pl.A1 * rng.uniform(0.5, 2.0)), ('explicit-other', c1_ * pl.A1 + c2_ * pl.A2)]
+    forms = [('scalar', 1), ('N=3', 3), ('N=6', 6)]
+    for form, N in forms:
+        ab = rng.uniform(-1.5, 2.5, (N, 2))
+        a, b = ab[:, 0], ab[:, 1]
+        if form == 'scalar':
+            a_in, b_in = float(a[0]), float(b[0])
+        else:
+            a_in, b_in = (a.tolist(), b.tolist()) if as_list else (a.copy(), b.copy())
+        amax = 1 + np.abs(ab).max()
+        pos_exp = pla.a12_to_pos(a, b)
+        s1, s2 = pl.pos_to_a12(pos_exp)           # the same positions in the saved vectors
+        smax = 1 + max(np.abs(s1).max(), np.abs(s2).max())
+        pos_in = pos_exp.tolist() if as_list else pos_exp.copy()
+        tol_p = 1e-12 * L * amax
+        tol_a = 1e-9 * kap_a * amax
+        # the values every query form has to return: the saved-vector coordinates of the same positions
+        base = {}
+        for name, f, vals, table, rng_ in funcs:
+            with ctx.guard(f'{name} evaluates at fractional coordinates', f'altvect:{name}:native:exception'):
+                base[name] = (np.reshape(f(a1=s1.copy(), a2=s2.copy()), -1), np.reshape(f(a1=s1.copy(), a2=s2.copy(), smooth=False), -1))
+        # -- fractional <-> Cartesian ------------------------------------------------
+        with ctx.guard('a12_to_pos accepts alternative shift vectors', f'altvect:a12_to_pos:exception'):
+            pa = gs.a12_to_pos(a_in, b_in, **kv)
+            rec.close(tol_p, pa, pos_exp, 'a12_to_pos(a1, a2, a1vect=, a2vect=) is a1*A1\' + a2*A2\' for the given crystal vectors', f'altvect:a12_to_pos:{form}', given=kv)
+        with ctx.guard('pos_to_a12 accepts alternative shift vectors', f'altvect:pos_to_a12:exception'):
+            r1, r2 = gs.pos_to_a12(pos_in, **kv)
+            rec.close(tol_a, np.reshape(r1, -1), a, 'pos_to_a12(pos, a1vect=, a2vect=) inverts a12_to_pos with the same vectors', f'altvect:pos_to_a12:{form}', given=kv)
+            rec.close(tol_a, np.reshape(r2, -1), b, 'pos_to_a12(pos, a1vect=, a2vect=) inverts a12_to_pos with the same vectors', f'altvect:pos_to_a12:{form}', given=kv)
+            back = gs.a12_to_pos(r1, r2, **kv)
+            rec.close(1e-9 * kap_a * L * amax, back, pos_exp, 'a12_to_pos(pos_to_a12(pos)) = pos with the same vectors on both sides', f'altvect:roundtrip:pos-a12-pos', given=kv)
+            rec.count('altvect:inverse-pairs')
+        # -- fractional <-> plotting, Cartesian <-> plotting ---------------------------
+        for xm, xv in xmodes:
+            kx = dict(kv)
+            if xv is not None:
+                kx['xvect'] = conv(xv)
+            xv_eff = pla.A1 if xv is None else xv      # pla.A1 is the saved a1 vector when a1vect is not given
+            plx = plane_of(S, xvect=xv_eff)            # saved plane normal, x along xv_eff, y = n x x
+            x_exp, y_exp = plx.pos_to_xy(pos_exp)
+            if form == 'scalar':
+                x_in, y_in = float(x_exp[0]), float(y_exp[0])
+            else:
+                x_in, y_in = (x_exp.tolist(), y_exp.tolist()) if as_list else (x_exp.copy(), y_exp.copy())
+            tol_x = 1e-11 * L * amax
+            rec.count('altvect:xmode:' + xm)
+            with ctx.guard('a12_to_xy accepts alternative shift vectors', f'altvect:a12_to_xy:exception:{xm}'):
+                xx, yy = gs.a12_to_xy(a_in, b_in, **kx)
+                rec.close(tol_x, np.reshape(xx, -1), x_exp, 'a12_to_xy(a1, a2, a1vect=, a2vect=[, xvect=]): x along xvect, else along the Cartesian image of the given a1vect', f'altvect:a12_to_xy:{xm}', given=kx, form=form)
+                rec.close(tol_x, np.reshape(yy, -1), y_exp, 'a12_to_xy(a1, a2, a1vect=, a2vect=[, xvect=]): x along xvect, else along the Cartesian image of the given a1vect', f'altvect:a12_to_xy:{xm}', given=kx, form=form)
+            with ctx.guard('xy_to_a12 accepts alternative shift vectors', f'altvect:xy_to_a12:exception:{xm}'):
+                q1, q2 = gs.xy_to_a12(x_in, y_in, **kx)
+                rec.close(tol_a, np.reshape(q1, -1), a, 'xy_to_a12(x, y, a1vect=, a2vect=[, xvect=]) inverts a12_to_xy called with the same keywords', f'altvect:xy_to_a12:{xm}', given=kx, form=form)
+                rec.close(tol_a, np.reshape(q2, -1), b, 'xy_to_a12(x, y, a1vect=, a2vect=[, xvect=]) inverts a12_to_xy called with the same keywords', f'altvect:xy_to_a12:{xm}', given=kx, form=form)
+            with ctx.guard('a12_to_xy / xy_to_a12 compose with the same keywords', f'altvect:roundtrip:exception:{xm}'):
+                xx, yy = gs.a12_to_xy(a_in, b_in, **kx)
+                q1, q2 = gs.xy_to_a12(xx, yy, **kx)
+                rec.close(tol_a, np.reshape(q1, -1), a, 'xy_to_a12(*a12_to_xy(a1, a2, **kw), **kw) = (a1, a2)', f'altvect:roundtrip:a12-xy-a12:{xm}', given=kx, form=form)
+                rec.close(tol_a, np.reshape(q2, -1), b, 'xy_to_a12(*a12_to_xy(a1, a2, **kw), **kw) = (a1, a2)', f'altvect:roundtrip:a12-xy-a12:{xm}', given=kx, form=form)
+                q1, q2 = gs.xy_to_a12(x_in, y_in, **kx)
+                xx, yy = gs.a12_to_xy(q1, q2, **kx)
+                rec.close(1e-9 * kap_a * L * amax, np.reshape(xx, -1), x_exp, 'a12_to_xy(*xy_to_a12(x, y, **kw), **kw) = (x, y)', f'altvect:roundtrip:xy-a12-xy:{xm}', given=kx, form=form)
+                rec.close(1e-9 * kap_a * L * amax, np.reshape(yy, -1), y_exp, 'a12_to_xy(*xy_to_a12(x, y, **kw), **kw) = (x, y)', f'altvect:roundtrip:xy-a12-xy:{xm}', given=kx, form=form)
+                rec.count('altvect:inverse-pairs', 2)
+            # pos <-> xy with the x axis the derived mode uses, given explicitly
+            kxx = {'xvect': conv(xv_eff)}
+            with ctx.guard('pos_to_xy / xy_to_pos accept an explicit x vector', f'altvect:pos_xy:exception:{xm}'):
+                px, py = gs.pos_to_xy(pos_in, **kxx)
+                rec.close(tol_x, np.reshape(px, -1), x_exp, 'pos_to_xy(pos, xvect=): x along xvect, y along n x xvect', f'altvect:pos_to_xy:{xm}')
+                rec.close(tol_x, np.reshape(py, -1), y_exp, 'pos_to_xy(pos, xvect=): x along xvect, y along n x xvect', f'altvect:pos_to_xy:{xm}')
+                pb = gs.xy_to_pos(x_in, y_in, **kxx)
+                rec.close(tol_x, pb, pos_exp, 'xy_to_pos(x, y, xvect=) inverts pos_to_xy with the same xvect', f'altvect:xy_to_pos:{xm}')
+                rec.count('altvect:inverse-pairs')
+            # -- the query forms: every form names the same positions -----------------------
+            for name, f, vals, table, rng_ in funcs:
+                tol_e = 1e-10 * rng_ * max(kap_n, kap_a) * smax
+                if name not in base:
+                    continue
+                e0 = base[name][0]
+                with ctx.guard(f'{name} accepts x/y with alternative shift vectors', f'altvect:{name}:xy-form:exception:{xm}'):
+                    e_x = f(x=x_in, y=y_in, **kx)
+                    rec.close(tol_e, np.reshape(e_x, -1), e0, f'{name}(x=, y=, a1vect=, a2vect=[, xvect=]) is the value at the position those plotting coordinates name', f'altvect:{name}:xy-form', given=kx, form=form, xmode=xm)
+                    # whatever the two forms return, they name the same position: they must agree
+                    e_p = f(pos=gs.xy_to_pos(x_in, y_in, **kxx), **kv)
+                    rec.close(tol_e, np.reshape(e_x, -1), np.reshape(e_p, -1), f'{name}(x=, y=, **kw) = {name}(pos=xy_to_pos(x, y), **kw): plotting and Cartesian forms are interchangeable', f'altvect:{name}:xy-vs-pos:{xm}', given=kx, form=form)
+                    rec.count('altvect:queries', 2 * N)
+        for name, f, vals, table, rng_ in funcs:
+            tol_e = 1e-10 * rng_ * max(kap_n, kap_a) * smax
+            if name not in base:
+                continue
+            e0, e0n = base[name]
+            with ctx.guard(f'{name} accepts a1/a2 with alternative shift vectors', f'altvect:{name}:a12-form:exception'):
+                e_a = f(a1=a_in, a2=b_in, **kv)
+                rec.close(tol_e, np.reshape(e_a, -1), e0, f'{name}(a1=, a2=, a1vect=, a2vect=) is the value at the same Cartesian position', f'altvect:{name}:a12-form', given=kv, form=form)
+                if form == 'scalar':
+                    rec.check(np.ndim(e_a) == 0, f'{name} of scalar coordinates with alternative vectors is a scalar', f'altvect:{name}:a12-form:scalar-shape', shape=np.shape(e_a))
+                # nearest-node lookup: exempt points within 1e-7 of a tie between two nodes
+                n1, n2 = S['n1'], S['n2']
+                tie = np.minimum(np.abs((s1 * n1 - 0.5) - np.rint(s1 * n1 - 0.5)), np.abs((s2 * n2 - 0.5) - np.rint(s2 * n2 - 0.5))) < 1e-7 * smax
+                e_n = np.reshape(f(a1=a_in, a2=b_in, smooth=False, **kv), -1)
+                rec.count('altvect:nearest:exempt-tie', int(tie.sum()))
+                rec.close(1e-12 * rng_, e_n[~tie], e0n[~tie], f'{name}(a1=, a2=, a1vect=, a2vect=, smooth=False) is the nearest sampled value at the same Cartesian position', f'altvect:{name}:a12-form:nearest', given=kv, form=form)
+                rec.count('altvect:queries', 2 * N)
+            with ctx.guard(f'{name} accepts pos with alternative shift vectors', f'altvect:{name}:pos-form:exception'):
+                e_p = f(pos=pos_in, **kv)
+                rec.close(tol_e, np.reshape(e_p, -1), e0, f'{name}(pos=, a1vect=, a2vect=) is the value at that Cartesian position whatever vectors are named', f'altvect:{name}:pos-form', given=kv, form=form)
+                rec.count('altvect:queries', N)
+    rec.count('altvect')
+
+
+# ----------------------------------------------------------------------------
 # Peierls-Nabarro terms
 # ----------------------------------------------------------------------------
-def build_pn(ctx, am, P, grid_index, with_settings=True, table=None, grid=None):
-    """GammaSurface + Volterra solution + SDVPN object for set-up P.  Returns
-    (pn, info) or (None, None) when the Volterra solver refuses the set-up."""
-    rng = ctx.rng
-    n1, n2 = grid or gen.GRIDS[grid_index % len(gen.GRIDS)]
+def build_gamma_for(am, P, n1, n2, table):
     k, l = np.meshgrid(np.arange(n1), np.arange(n2), indexing='ij')
-    if table is None:
-        table = gen.energy_table(rng, n1, n2, 'smooth', 10 ** rng.uniform(-2.5, -1))
     box = am.Box(vects=P['boxvects']) if P['boxvects'] is not None else None
-    gs = am.defect.GammaSurface(a1vect=P['a1vect'], a2vect=P['a2vect'], a1=(k / n1).ravel(), a2=(l / n2).ravel(), E_gsf=table.ravel(), box=box)
-    C = am.ElasticConstants(Cij=P['C'])
+    return am.defect.GammaSurface(a1vect=P['a1vect'], a2vect=P['a2vect'], a1=(k / n1).ravel(), a2=(l / n2).ravel(), E_gsf=table.ravel(), box=box)
+
+
+def solve_volterra(ctx, am, P, Cij=None):
+    """Volterra solution for set-up P (None when the solver refuses the set-up: that belongs to C12)."""
+    box = am.Box(vects=P['boxvects']) if P['boxvects'] is not None else None
+    C = am.ElasticConstants(Cij=P['C'] if Cij is None else Cij)
     m, n = P['mn']
-    vol = None
     try:
         if P['transform'] is None:
-            vol = am.defect.solve_volterra_dislocation(C, P['burgers'], ξ_uvw=P['xi_uvw'], slip_hkl=P['slip_hkl'], box=box, m=m, n=n)
-        else:
-            # rows of `transform` are the directions put on the Cartesian x, y, z axes of the solution
-            vol = am.defect.solve_volterra_dislocation(C, P['burgers'], transform=O.relabel(m, n).T @ P['transform'], m=m, n=n)
+            return am.defect.solve_volterra_dislocation(C, P['burgers'], ξ_uvw=P['xi_uvw'], slip_hkl=P['slip_hkl'], box=box, m=m, n=n)
+        # rows of `transform` are the directions put on the Cartesian x, y, z axes of the solution
+        return am.defect.solve_volterra_dislocation(C, P['burgers'], transform=O.relabel(m, n).T @ P['transform'], m=m, n=n)
     except Exception as e:      # the Volterra solution belongs to C12
         ctx.rec.refusal(f'volterra:{type(e).__name__}')
-        return None, None
-    kw = {}
-    if with_settings:
-        kw = dict(tau=P['tau_value'], alpha=P['alpha_value'], beta=P['beta_value'], **P['flags'])
-        if P['cutoff_value'] is not None:
-            kw['cutofflongrange'] = P['cutoff_value']
-    pn = am.defect.SDVPN(volterra=vol, gamma=gs, **kw)
+        return None
+
+
+def settings_kwargs(P):
+    kw = dict(tau=P['tau_value'], alpha=P['alpha_value'], beta=P['beta_value'], **P['flags'])
+    if P['cutoff_value'] is not None:
+        kw['cutofflongrange'] = P['cutoff_value']
+    return kw
+
+
+def build_parts(ctx, am, P, grid_index, table=None, grid=None):
+    """(GammaSurface, Volterra solution, info) for set-up P, or (None, None, None)."""
+    rng = ctx.rng
+    n1, n2 = grid or gen.GRIDS[grid_index % len(gen.GRIDS)]
+    if table is None:
+        table = gen.energy_table(rng, n1, n2, 'smooth', 10 ** rng.uniform(-2.5, -1))
+    gs = build_gamma_for(am, P, n1, n2, table)
+    vol = solve_volterra(ctx, am, P)
+    if vol is None:
+        return None, None, None
+    m, n = P['mn']
     bv = P['boxvects'] if P['boxvects'] is not None else np.eye(3)
     T = O.dislocation_frame(bv, P['xi_uvw'], P['slip_hkl']) if P['transform'] is None else np.array([O.unit(r) for r in P['transform']])
     Rl = O.relabel(m, n)
     info = dict(T=T, K=Rl @ np.asarray(vol.K_tensor) @ Rl.T, b=T @ O.crystal_to_cart(P['burgers'], bv), n1=n1, n2=n2, table=table,
                 plane=O.Plane(P['a1vect'], P['a2vect'], bv), Kname=type(vol).__name__)
-    pn._vf_T = T
+    return gs, vol, info
+
+
+def build_pn(ctx, am, P, grid_index, with_settings=True, table=None, grid=None):
+    """GammaSurface + Volterra solution + SDVPN object for set-up P.  Returns
+    (pn, info) or (None, None) when the Volterra solver refuses the set-up."""
+    gs, vol, info = build_parts(ctx, am, P, grid_index, table=table, grid=grid)
+    if vol is None:
+        return None, None
+    pn = am.defect.SDVPN(volterra=vol, gamma=gs, **(settings_kwargs(P) if with_settings else {}))
+    pn._vf_T = info['T']
     return pn, info
 
 
@@ -570,6 +738,401 @@ def pn_case(ctx, am, i):
         rec.close(1e-9 * mg, ef - ea, O.stress_boundary_term(x, d, pn.tau),
                   'full and alternate stress energies differ only by the end-point term -tau_2l (x_N d_N - x_1 d_1)', 'stress:algorithms-consistent')
         rec.count('stress:consistency')
+
+
+# ----------------------------------------------------------------------------
+# call histories on ONE object: every evaluation is judged against the oracle's direct
+# evaluation for the settings requested so far AND against a freshly constructed object
+# ----------------------------------------------------------------------------
+def set_surface(am, g, S):
+    box = am.Box(vects=S['boxvects']) if S['boxvects'] is not None else None
+    g.set(S['a1vect'], S['a2vect'], S['a1'], S['a2'], S['E'], box=box, delta=S['delta'])
+
+
+def warm_surface(g, S):
+    """A few queries of every kind, so that anything the object memoises has been filled in."""
+    a = np.array([0.13, 0.61, -0.4, 1.0]), np.array([0.27, 0.02, 0.77, 0.5])
+    out = [g.E_gsf(a1=a[0].copy(), a2=a[1].copy()), g.E_gsf(a1=a[0].copy(), a2=a[1].copy(), smooth=False)]
+    if S['with_delta']:
+        out += [g.delta(a1=a[0].copy(), a2=a[1].copy()), g.delta(a1=a[0].copy(), a2=a[1].copy(), smooth=False)]
+    pos = g.a12_to_pos(a[0], a[1])
+    out += [g.E_gsf(pos=pos), np.array(g.pos_to_xy(pos)), np.array(g.xy_to_a12(*g.a12_to_xy(a[0], a[1]))), np.array(g.pos_to_a12(pos))]
+    g.model()
+    return out
+
+
+def judge_surface(ctx, am, g, S, fresh, mode, exact=True):
+    """Object g, which held other data before, must behave as a surface freshly built from S."""
+    rec, rng = ctx.rec, ctx.rng
+    pl = plane_of(S)
+    n1, n2 = S['n1'], S['n2']
+    R = float(S['table'].max() - S['table'].min())
+    Rd = float(S['dtable'].max() - S['dtable'].min()) if S['with_delta'] else None
+    L = max(np.linalg.norm(pl.A1), np.linalg.norm(pl.A2))
+    kappa = np.linalg.cond(np.array([pl.A1, pl.A2]).T)
+    ftol = 1e-11 if exact else 1e-8
+    k_ = lambda what: f'hist:gs:{what}:{mode}'
+    c_ = 'after set()/model(model=) is called again the object is the surface of the new data: '
+    with ctx.guard(c_ + 'geometry', k_('geometry:exception')):
+        rec.close(1e-12, g.planenormal, pl.n, c_ + 'plane normal', k_('planenormal'))
+        bv = S['boxvects'] if S['boxvects'] is not None else np.eye(3)
+        rec.close(1e-12 * L, O.crystal_to_cart(g.a1vect, g.box.vects), pl.A1, c_ + 'shift vectors', k_('vectors'))
+        rec.close(1e-12 * L, O.crystal_to_cart(g.a2vect, g.box.vects), pl.A2, c_ + 'shift vectors', k_('vectors'))
+        rec.close(1e-12 * np.abs(bv).max(), g.box.vects, bv, c_ + 'box', k_('box'))
+        rec.close(1e-13, g.data.a1.values, S['a1'], c_ + 'fractional coordinates', k_('data'))
+        rec.close(1e-13, g.data.a2.values, S['a2'], c_ + 'fractional coordinates', k_('data'))
+        rec.close(1e-12 * S['scale'], g.data.E_gsf.values, S['E'], c_ + 'energies', k_('data'), rtol=1e-12)
+        rec.check(('delta' in g.data) == S['with_delta'], c_ + 'presence of plane-separation data', k_('delta-presence'))
+    funcs = [('E_gsf', g.E_gsf, fresh.E_gsf, S['E'], R)]
+    if S['with_delta']:
+        funcs.append(('delta', g.delta, fresh.delta, S['delta'], Rd))
+    else:
+        try:
+            v = g.delta(a1=np.array([0.13, 0.61]), a2=np.array([0.27, 0.02]))
+            rec.fail(c_ + 'delta() refuses when the new data have no plane separations', k_('delta-stale'), returned=v)
+        except AttributeError:
+            rec.refusal('delta without plane-separation data: AttributeError')
+            rec.count('hist:gs:delta-refused')
+        except Exception as e:
+            rec.fail(c_ + 'delta() refuses with AttributeError when the new data have no plane separations', k_('delta-stale:exception'), exception=e)
+    cushion = 0.0 if S['layout'] == 'dup' else 0.5 / n1
+    generic, hard, edge = gen.query_points(rng, 12, n1, n2, cushion)
+    pts = np.vstack([generic, hard])
+    pq = gen.periods(rng, 3)
+    for name, f, ff, vals, rng_ in funcs:
+        for smooth in (True, False):
+            sm = 'smooth' if smooth else 'nearest'
+            with ctx.guard(c_ + f'{name} evaluates', k_(f'{name}:{sm}:exception')):
+                got = f(a1=np.array(S['a1']), a2=np.array(S['a2']), smooth=smooth)
+                rec.close(1e-8 * rng_, got, vals, c_ + f'{name} reproduces the new data at the new sampled shifts', k_(f'nodes:{name}:{sm}'))
+                q = pts if smooth else generic
+                got = f(a1=q[:, 0].copy(), a2=q[:, 1].copy(), smooth=smooth)
+                exp = ff(a1=q[:, 0].copy(), a2=q[:, 1].copy(), smooth=smooth)
+                rec.close(ftol * rng_, got, exp, c_ + f'{name} equals that of a freshly constructed surface', k_(f'fresh:{name}:{sm}'))
+                for p_, q_ in pq:
+                    got2 = f(a1=q[:, 0] + p_, a2=q[:, 1] + q_, smooth=smooth)
+                    rec.close(1e-10 * rng_, got2, got, c_ + f'{name} is periodic', k_(f'periodic:{name}:{sm}'))
+                rec.count('hist:gs:fresh-compared', len(q))
+    ab = rng.uniform(-1.5, 2.5, (4, 2))
+    amax = 1 + np.abs(ab).max()
+    pos_exp = pl.a12_to_pos(ab[:, 0], ab[:, 1])
+    x_exp, y_exp = pl.pos_to_xy(pos_exp)
+    with ctx.guard(c_ + 'conversions', k_('conv:exception')):
+        rec.close(1e-12 * L * amax, g.a12_to_pos(ab[:, 0], ab[:, 1]), pos_exp, c_ + 'a12_to_pos', k_('a12_to_pos'))
+        b1, b2 = g.pos_to_a12(pos_exp)
+        rec.close(1e-9 * kappa * amax, np.array([b1, b2]), ab.T, c_ + 'pos_to_a12', k_('pos_to_a12'))
+        xx, yy = g.a12_to_xy(ab[:, 0], ab[:, 1])
+        rec.close(1e-11 * L * amax, np.array([xx, yy]), np.array([x_exp, y_exp]), c_ + 'a12_to_xy', k_('a12_to_xy'))
+        c1, c2 = g.xy_to_a12(x_exp, y_exp)
+        rec.close(1e-9 * kappa * amax, np.array([c1, c2]), ab.T, c_ + 'xy_to_a12', k_('xy_to_a12'))
+        e_a = g.E_gsf(a1=ab[:, 0].copy(), a2=ab[:, 1].copy())
+        rec.close(1e-10 * R * kappa, g.E_gsf(pos=pos_exp), e_a, c_ + 'E_gsf(pos=) = E_gsf(a1=, a2=)', k_('interchange:pos'))
+        rec.close(1e-10 * R * kappa, np.reshape(g.E_gsf(x=x_exp, y=y_exp), -1), e_a, c_ + 'E_gsf(x=, y=) = E_gsf(a1=, a2=)', k_('interchange:xy'))
+    with ctx.guard(c_ + 'model()', k_('model:exception')):
+        g3 = am.defect.GammaSurface(model=g.model())
+        rec.close(1e-12 * S['scale'], g3.data.E_gsf.values, S['E'], c_ + 'model() writes the new data', k_('model'), rtol=1e-12)
+        rec.close(1e-12 * L, O.crystal_to_cart(g3.a1vect, g3.box.vects), pl.A1, c_ + 'model() writes the new vectors', k_('model'))
+        rec.check(('delta' in g3.data) == S['with_delta'], c_ + 'model() writes plane separations only when the new data have them', k_('model:delta-presence'))
+
+
+def gs_history_case(ctx, am, i):
+    rec, rng = ctx.rec, ctx.rng
+    mode, ia, ib = gen.gs_history_plan(i)
+    A = gen.gen_surface(rng, ia)
+    if mode == 'same-shape':
+        # same number of rows, same grid, same layout; plane separations kept (F>F, T>T), added (F>T), dropped (T>F) in turn
+        wd = A['with_delta'] if (i // 7) % 4 < 2 else not A['with_delta']
+        B = gen.gen_surface(rng, ib, override=dict(grid=(A['n1'], A['n2']), layout=A['layout'], order=A['order'], with_delta=wd))
+        rec.count(f"hist:gs:same-shape:{A['with_delta']}>{wd}")
+    elif mode == 'same-vectors':
+        B = gen.gen_surface(rng, ib, vectors=(A['shift'], A['cellkind'], A['boxvects'], A['a1vect'], A['a2vect']))
+    else:
+        B = gen.gen_surface(rng, ib)
+    sig = ('gs-history', mode, A['shift'], B['shift'], A['layout'] + '>' + B['layout'], f"{A['n1']}x{A['n2']}>{B['n1']}x{B['n2']}", f"delta:{A['with_delta']}>{B['with_delta']}")
+    rec.case(sig, nontrivial=True, fp=fingerprint(A['E'], B['E'], A['a1vect'], B['a1vect']))
+    rec.count('hist:gs:mode:' + mode)
+    rec.count(f"hist:gs:delta:{A['with_delta']}>{B['with_delta']}")
+    rec.count('hist:gs:same-length-other-data', int(len(A['E']) == len(B['E'])))
+    g = freshA = freshB = None
+    with ctx.guard('gamma surfaces can be built', f'hist:gs:build:{mode}'):
+        freshA = build_gamma(am, A)
+        freshB = build_gamma(am, B)
+        if mode == 'model-set':
+            g = am.defect.GammaSurface(model=freshA.model())
+        elif mode == 'empty-set':
+            g = am.defect.GammaSurface()
+            try:
+                g.data
+                rec.fail('an empty gamma surface has no data', 'hist:gs:empty-has-data')
+            except AttributeError:
+                pass
+        else:
+            g = build_gamma(am, A)
+    if g is None or freshB is None:
+        return
+    exact = True
+    with ctx.guard('set() / model(model=) can be called again on an object that holds data', f'hist:gs:reset:exception:{mode}'):
+        first = warm_surface(g, A) if mode != 'empty-set' else None
+        if mode == 'set-model':
+            mdl = freshB.model()
+            g.model(model=mdl)
+            freshB = am.defect.GammaSurface(model=mdl)      # same numbers after the unit round trip
+        else:
+            set_surface(am, g, B)
+        judge_surface(ctx, am, g, B, freshB, mode)
+        if mode == 'ABA':
+            set_surface(am, g, A)
+            judge_surface(ctx, am, g, A, freshA, 'ABA-back')
+            again = warm_surface(g, A)
+            RA = float(A['table'].max() - A['table'].min()) + 1.0
+            for u, v in zip(first, again):
+                rec.close(1e-11 * RA * 10, np.asarray(v, float), np.asarray(u, float), 'setting the first data again gives the first answers again', 'hist:gs:ABA:same-answers')
+        rec.count('hist:gs:judged')
+
+
+def oracle_terms_state(st, gammas):
+    """The six documented terms for the settings REQUESTED so far (never read back from the object)."""
+    x, d, fl = st['x'], st['d'], st['flags']
+    out = {'misfit': O.misfit_from_values(x, gammas), 'elastic': O.elastic(x, d, st['K'], fl['cdiffelastic'])}
+    lr = O.longrange(st['K'], st['b'], st['cutoff'])
+    out['longrange'] = (lr, abs(lr))
+    if fl['fullstress']:
+        out['stress'] = O.stress_full(x, d, st['tau'], fl['cdiffstress'], centred_weight=fl['cdiffstress'])
+        if fl['cdiffstress']:
+            out['stress-literal'] = O.stress_full(x, d, st['tau'], True)
+    else:
+        out['stress'] = O.stress_trapezoid(x, d, st['tau'])
+    out['surface'] = O.surface(x, d, st['beta'], fl['cdiffsurface'])
+    out['nonlocal'] = O.nonlocal_(x, d, st['alpha'])
+    return out
+
+
+def state_gammas(st, d=None):
+    """gamma at each disregistry vector: node values of the current table when the profile sits on
+    nodes, else scalar queries of a FRESH surface built from the current table (oracle frame / plane)."""
+    if d is None and st['gam'] is not None:
+        return st['gam']
+    d = st['d'] if d is None else d
+    vals = []
+    for di in d:
+        pos = st['T'].T @ np.array([di[0], 0.0, di[2]])
+        a1, a2 = st['plane'].pos_to_a12(pos)
+        vals.append(float(st['gs_fresh'].E_gsf(a1=float(a1[0]), a2=float(a2[0]))))
+    return vals
+
+
+def state_kwargs(st):
+    return dict(tau=st['tau'], alpha=st['alpha_in'], beta=st['beta'], cutofflongrange=st['cutoff'], **st['flags'])
+
+
+def judge_pn(ctx, am, pn, st, step, how):
+    rec = ctx.rec
+    x, d = st['x'], st['d']
+    N, dx = len(x), abs(x[1] - x[0])
+    exp = oracle_terms_state(st, state_gammas(st))
+    fresh = am.defect.SDVPN(volterra=st['vol'], gamma=st['gs_fresh'], **state_kwargs(st))
+    if how == 'stored':
+        pn.x = x
+        pn.disregistry = d
+        call = lambda m: m()
+    else:
+        call = lambda m: m(x, d)
+    names = {'misfit': 'misfit_energy', 'elastic': 'elastic_energy', 'stress': 'stress_energy', 'surface': 'surface_energy', 'nonlocal': 'nonlocal_energy'}
+    c_ = 'on an object that has evaluated other grids / profiles / settings before, '
+    got, tot_exp, tot_mag = {}, 0.0, 0.0
+    for name in TERMS:
+        e, mag = exp[name]
+        tol = 1e-9 * mag + 1e-300
+        ftol = 1e-11 * mag + 1e-300
+        if name == 'misfit':
+            tol = (1e-8 if st['gam'] is not None else 1e-9) * st['Rg'] * N * dx
+            ftol = 1e-11 * st['Rg'] * N * dx
+        try:
+            v = float(pn.longrange_energy()) if name == 'longrange' else float(call(getattr(pn, names[name])))
+            vf = float(fresh.longrange_energy()) if name == 'longrange' else float(getattr(fresh, names[name])(x, d))
+        except Exception as ex:
+            rec.fail(c_ + f'{name}_energy evaluates', f'hist:pn:{name}:exception', exception=ex, step=step, how=how)
+            continue
+        got[name] = v
+        if name == 'stress' and 'stress-literal' in exp and abs(v - exp['stress-literal'][0]) <= 1e-9 * exp['stress-literal'][1] + 1e-300:
+            e, mag = exp['stress-literal']         # the documented formula leaves the weights of the central-difference density open
+        tot_exp += e
+        tot_mag += mag
+        rec.close(tol, v, e, c_ + f'{name}_energy equals the direct evaluation of its documented formula', f'hist:pn:{name}:after:{step}', how=how, N=N, dx=dx)
+        rec.close(ftol, v, vf, c_ + f'{name}_energy equals that of a freshly constructed object with the same settings', f'hist:pn:fresh:{name}:after:{step}', how=how, N=N, dx=dx)
+    try:
+        t = float(call(pn.total_energy))
+        tf = float(fresh.total_energy(x, d))
+    except Exception as ex:
+        rec.fail(c_ + 'total_energy evaluates', 'hist:pn:total:exception', exception=ex, step=step, how=how)
+        return
+    if len(got) == 6:
+        rec.close(1e-8 * tot_mag, t, tot_exp, c_ + 'total_energy equals the sum of the documented term formulas', f'hist:pn:total:after:{step}', how=how, N=N, dx=dx)
+        rec.close(1e-11 * tot_mag, t, tf, c_ + 'total_energy equals that of a freshly constructed object with the same settings', f'hist:pn:fresh:total:after:{step}', how=how, N=N, dx=dx)
+        rec.close(1e-12 * sum(abs(v) for v in got.values()), t, sum(got.values()), c_ + 'total_energy is the sum of the six term methods', 'hist:pn:total:sum')
+        rec.count('hist:pn:judged')
+        rec.count('hist:pn:fresh-compared')
+    rec.count('hist:pn:how:' + how)
+
+
+def new_settings(rng, which, nonneg=False, k=None):
+    s = rng.uniform(0.002, 0.02)
+    if which == 'tau':
+        tau = rng.normal(size=(3, 3)) * s
+        return (tau + tau.T) / 2 if rng.random() < 0.4 else tau
+    if which == 'alpha':
+        al = rng.uniform(0.0 if nonneg else -0.02, 0.05, 3)
+        k = int(rng.integers(0, 4)) if k is None else k
+        return [float(al[0]), [float(al[0])], [float(al[0]), float(al[1])], [float(t) for t in al]][k]
+    if which == 'beta':
+        beta = rng.uniform(0.0 if nonneg else -0.1, 0.3, (3, 3))
+        return (beta + beta.T) / 2 if rng.random() < 0.4 else beta
+    if which == 'cutoff':
+        return float(10 ** rng.uniform(1.5, 4))
+    raise ValueError(which)
+
+
+def alpha_tuple(a):
+    try:
+        return tuple(float(t) for t in a)
+    except TypeError:
+        return (float(a),)
+
+
+def pn_history_case(ctx, am, i):
+    rec, rng = ctx.rec, ctx.rng
+    plan = gen.history_plan(i)
+    cls = gen.pn_classes(7 * i + 3)
+    cls['N'] = gen.HIST_N[i % len(gen.HIST_N)]
+    P = gen.gen_pn(rng, i, cls)
+    fkey = ''.join(str(int(P['flags'][k])) for k in ('fullstress', 'cdiffstress', 'cdiffelastic', 'cdiffsurface'))
+    sig = ('pn-history', P['cell'], P['K'], P['profile'], P['N'], fkey, tuple(s for s, h in plan), tuple(h for s, h in plan))
+    gs = vol = info = None
+    with ctx.guard('an SDVPN object can be built for a slip system lying in the gamma-surface plane', f'hist:pn:build:{P["cell"]}'):
+        gs, vol, info = build_parts(ctx, am, P, i)
+    if vol is None:
+        rec.case(sig, nontrivial=False)
+        return
+    pn = am.defect.SDVPN(volterra=vol, gamma=gs, **settings_kwargs(P))
+    pn._vf_T = info['T']
+    bn = float(np.linalg.norm(info['b']))
+    x = gen.gen_grid(rng, P['N'], bn, P['x0'])
+    d, gam = make_profile(rng, P, pn, info, x)
+    rec.case(sig, nontrivial=True, fp=fingerprint(x, d, P['C'], P['tau_value'], P['beta_value']))
+    st = dict(x=x, d=d, gam=gam, tau=np.asarray(P['tau_value'], float), alpha=alpha_tuple(P['alpha_value']), alpha_in=P['alpha_value'],
+              beta=np.asarray(P['beta_value'], float), cutoff=1000.0 if P['cutoff_value'] is None else P['cutoff_value'], flags=dict(P['flags']),
+              K=info['K'], b=info['b'], T=info['T'], plane=info['plane'], vol=vol, Rg=float(info['table'].max() - info['table'].min()),
+              gs_fresh=build_gamma_for(am, P, info['n1'], info['n2'], info['table']))
+    judge_pn(ctx, am, pn, st, 'construction', 'args')
+    profiles = [p for p in gen.PN_PROFILES]
+
+    def new_profile(xg, kind=None):
+        kind = kind or profiles[int(rng.integers(0, len(profiles)))]
+        dd, gg = make_profile(rng, dict(P, profile=kind), pn, info, xg)
+        st.update(x=xg, d=dd, gam=gg)
+
+    for j, (step, how) in enumerate(plan):
+        rec.count('hist:pn:step:' + step)
+        if j == 0:
+            rec.count('hist:pn:first-step:' + step)
+        x, d = st['x'], st['d']
+        N, dx = len(x), x[1] - x[0]
+        ok = False
+        with ctx.guard(f'the settings of an SDVPN object can be changed between evaluations ({step})', f'hist:pn:apply:{step}:exception'):
+            if step == 'x-respaced':
+                f = rng.uniform(0.35, 0.75) if rng.random() < 0.5 else rng.uniform(1.4, 2.8)
+                xn = x.mean() + (np.arange(N) - (N - 1) / 2) * dx * f
+                if (i // 12 + j) % 2:
+                    st.update(x=xn)               # same disregistry array, same number of points, other spacing
+                    rec.count('hist:pn:respaced:same-disregistry')
+                else:
+                    new_profile(xn)
+                rec.count('hist:pn:respaced:same-length', int(len(st['x']) == N and abs((st['x'][1] - st['x'][0]) / dx - 1) > 0.2))
+            elif step == 'x-relength':
+                Nn = gen.HIST_N[(gen.HIST_N.index(N) + 1 + int(rng.integers(0, len(gen.HIST_N) - 1))) % len(gen.HIST_N)] if N in gen.HIST_N else gen.HIST_N[j % len(gen.HIST_N)]
+                new_profile(x[0] + np.arange(Nn) * dx)
+            elif step == 'x-shifted':
+                st.update(x=x + rng.uniform(-20, 20) * dx)
+            elif step == 'disregistry':
+                new_profile(x, kind=profiles[(profiles.index(P['profile']) + 1 + j) % len(profiles)])
+            elif step == 'tau':
+                st['tau'] = new_settings(rng, 'tau')
+                pn.tau = st['tau']
+            elif step == 'alpha':
+                st['alpha_in'] = new_settings(rng, 'alpha', k=(i // 12 + i // 3 + j) % 4)      # scalar, 1, 2, 3 coefficients
+                st['alpha'] = alpha_tuple(st['alpha_in'])
+                pn.alpha = st['alpha_in']
+                rec.count(f'hist:pn:alpha-terms:{len(st["alpha"])}')
+            elif step == 'beta':
+                st['beta'] = new_settings(rng, 'beta')
+                pn.beta = st['beta']
+            elif step == 'cutoff':
+                st['cutoff'] = new_settings(rng, 'cutoff')
+                pn.cutofflongrange = st['cutoff']
+            elif step == 'flags':
+                mask = 1 + (i // 12 + i // 3 + 4 * j) % 15          # which of the four flags flip (never none)
+                for b_, name in enumerate(('fullstress', 'cdiffstress', 'cdiffelastic', 'cdiffsurface')):
+                    if mask >> b_ & 1:
+                        st['flags'][name] = not st['flags'][name]
+                        setattr(pn, name, st['flags'][name])
+                        rec.count('hist:pn:flag-flipped:' + name)
+            elif step == 'K-load':
+                other = 'stroh' if P['K'] == 'iso' else 'iso'
+                vol2 = solve_volterra(ctx, am, P, Cij=gen.stiffness(rng, other, P['cell']))
+                if vol2 is None:
+                    vol2 = solve_volterra(ctx, am, P, Cij=gen.stiffness(rng, P['K'], P['cell']))
+                if vol2 is not None:
+                    Rl = O.relabel(*P['mn'])
+                    donor = am.defect.SDVPN(volterra=vol2, gamma=pn.gamma, **state_kwargs(st))
+                    donor.x, donor.disregistry = st['x'], st['d']
+                    pn.load(donor.model(), gamma=pn.gamma)
+                    st.update(vol=vol2, K=Rl @ np.asarray(vol2.K_tensor) @ Rl.T)
+                    rec.close(1e-9 * np.abs(st['K']).max(), pn.K_tensor, st['K'], 'load() replaces the K tensor of an existing object', 'hist:pn:K-load:K')
+                    rec.count('hist:pn:K-changed', int(np.abs(st['K'] - info['K']).max() > 1e-3 * np.abs(info['K']).max()))
+            elif step == 'gamma-set':
+                grids = [g_ for g_ in gen.GRIDS if g_ != (info['n1'], info['n2'])]
+                n1, n2 = grids[int(rng.integers(0, len(grids)))] if j % 2 else (info['n1'], info['n2'])
+                table = gen.energy_table(rng, n1, n2, 'smooth', 10 ** rng.uniform(-2.5, -1))
+                k_, l_ = np.meshgrid(np.arange(n1), np.arange(n2), indexing='ij')
+                box = am.Box(vects=P['boxvects']) if P['boxvects'] is not None else None
+                pn.gamma.set(P['a1vect'], P['a2vect'], (k_ / n1).ravel(), (l_ / n2).ravel(), table.ravel(), box=box)
+                info.update(n1=n1, n2=n2, table=table)
+                st.update(Rg=float(table.max() - table.min()), gs_fresh=build_gamma_for(am, P, n1, n2, table))
+                new_profile(x)
+                rec.count('hist:pn:gamma-set:' + ('other-grid' if j % 2 else 'same-grid'))
+            elif step == 'solve-kwargs':
+                Nn = 7
+                xn = (np.arange(Nn) - (Nn - 1) / 2) * bn / rng.uniform(2.0, 6.0)
+                new_profile(xn, kind=['arctan', 'rough', 'smooth'][(i + j) % 3])
+                fl = {name: bool(rng.integers(0, 2)) for name in ('fullstress', 'cdiffstress', 'cdiffelastic', 'cdiffsurface')}
+                st.update(tau=new_settings(rng, 'tau'), alpha_in=new_settings(rng, 'alpha', True), beta=new_settings(rng, 'beta', True),
+                          cutoff=new_settings(rng, 'cutoff'), flags=fl)
+                st['alpha'] = alpha_tuple(st['alpha_in'])
+                d0 = st['d'].copy()
+                e0 = sum(v[0] for k2, v in oracle_terms_state(st, state_gammas(st)).items() if k2 != 'stress-literal')
+                pn.solve(x=xn, disregistry=d0.copy(), tau=st['tau'], alpha=st['alpha_in'], beta=st['beta'], cutofflongrange=st['cutoff'],
+                         min_method='Powell', min_options=dict(maxiter=1), **fl)
+                c2 = 'solve(x=, disregistry=, tau=, ...) on a used object stores the settings it was given: '
+                rec.close(0, pn.tau, st['tau'], c2 + 'tau', 'hist:pn:solve-kwargs:setting:tau')
+                rec.check(tuple(float(t) for t in pn.alpha) == st['alpha'], c2 + 'alpha', 'hist:pn:solve-kwargs:setting:alpha', got=pn.alpha, exp=st['alpha'])
+                rec.close(0, pn.beta, st['beta'], c2 + 'beta', 'hist:pn:solve-kwargs:setting:beta')
+                rec.check(pn.cutofflongrange == st['cutoff'], c2 + 'cutofflongrange', 'hist:pn:solve-kwargs:setting:cutoff')
+                for name in fl:
+                    rec.check(getattr(pn, name) is fl[name], c2 + name, 'hist:pn:solve-kwargs:setting:' + name, got=getattr(pn, name), exp=fl[name])
+                rec.check(np.array_equal(pn.x, xn), c2 + 'x', 'hist:pn:solve-kwargs:setting:x')
+                d1 = np.array(pn.disregistry, float)
+                st.update(d=d1, gam=None)
+                terms1 = oracle_terms_state(st, state_gammas(st))
+                e1 = sum(v[0] for k2, v in terms1.items() if k2 != 'stress-literal')
+                scale = sum(v[1] for k2, v in terms1.items() if k2 != 'stress-literal')
+                rec.check(e1 <= e0 + 1e-9 * scale, 'solve() on a used object does not raise the total energy (both energies evaluated by the oracle)', 'hist:pn:solve-kwargs:energy', before=e0, after=e1)
+                rec.check(np.array_equal(d1[0], d0[0]) and np.array_equal(d1[-1], d0[-1]), 'solve() on a used object leaves the two end disregistries fixed', 'hist:pn:solve-kwargs:ends')
+                rec.check(d1.shape == d0.shape and np.all(d1[:, 1] == 0.0), 'solve() keeps the out-of-plane disregistry zero', 'hist:pn:solve-kwargs:y')
+                rec.count('hist:pn:solve-lowered', int(e1 < e0 - 1e-9 * scale))
+            ok = True
+        if not ok:
+            return
+        judge_pn(ctx, am, pn, st, step, how)
 
 
 def solve_case(ctx, am, i):
@@ -732,7 +1295,8 @@ def run(ctx):
     rec.check(not bad, 'oracle reproduces its closed-form hand checks', 'oracle:selfcheck', failed=bad)
 
     import time
-    groups = [('surfaces', ctx.pick(152, 1344), surface_case), ('pn', ctx.pick(48, 640), pn_case), ('solve', ctx.pick(8, 32), solve_case),
+    groups = [('surfaces', ctx.pick(176, 1386), surface_case), ('gshist', ctx.pick(28, 224), gs_history_case), ('pn', ctx.pick(48, 640), pn_case),
+              ('pnhist', ctx.pick(48, 384), pn_history_case), ('solve', ctx.pick(8, 32), solve_case),
               ('halfwidth', ctx.pick(8, 16), halfwidth_case), ('arctan', ctx.pick(48, 480), arctan_case)]
     for name, n, fn in groups:
         t0 = time.process_time()
@@ -777,7 +1341,47 @@ def declare_floors(rec, ctx):
     f('conv:input:array', 100)
     f('conv:single', 100)
     f('interchange:evaluations', 2000)
-    f('altvect', 20)
+    f('altvect', 150)
+    for k in gen.ALT_KINDS:
+        f('altvect:kind:' + k, 16)
+    f('altvect:box:cubic', 20)
+    f('altvect:box:noncubic', 80)
+    f('altvect:box:nobox', 20)
+    f('altvect:given:a1vect', 16)
+    f('altvect:given:a2vect', 16)
+    f('altvect:given:a1vect+a2vect', 80)
+    for xm in gen.XMODES:
+        f('altvect:xmode:' + xm, 400)
+    f('altvect:a1vect-raw-direction-differs', 30)
+    f('altvect:inverse-pairs', 4000)
+    f('altvect:queries', 15000)
+    for m in gen.GS_HIST_MODES:
+        f('hist:gs:mode:' + m, 3)
+    f('hist:gs:delta:True>False', 3)
+    f('hist:gs:delta:True>True', 3)
+    f('hist:gs:delta-refused', 8)
+    f('hist:gs:same-length-other-data', 4)
+    f('hist:gs:same-shape:True>False', 1)
+    f('hist:gs:same-shape:True>True', 1)
+    f('hist:gs:judged', 24)
+    f('hist:gs:fresh-compared', 1000)
+    for st_ in gen.HIST_STEPS:
+        f('hist:pn:step:' + st_, 14)
+        f('hist:pn:first-step:' + st_, 2)
+    f('hist:pn:how:args', 100)
+    f('hist:pn:how:stored', 80)
+    f('hist:pn:judged', 220)
+    f('hist:pn:fresh-compared', 220)
+    f('hist:pn:respaced:same-length', 14)
+    f('hist:pn:respaced:same-disregistry', 5)
+    f('hist:pn:K-changed', 12)
+    f('hist:pn:gamma-set:other-grid', 5)
+    f('hist:pn:gamma-set:same-grid', 5)
+    for name in ('fullstress', 'cdiffstress', 'cdiffelastic', 'cdiffsurface'):
+        f('hist:pn:flag-flipped:' + name, 5)
+    for n_ in (1, 2, 3):
+        f(f'hist:pn:alpha-terms:{n_}', 3)
+    f('hist:pn:solve-lowered', 10)
     f('monitor:pos_to_a12:N=3', 100)
     f('monitor:pos_to_a12:N!=3', 100)
     f('monitor:pos_to_a12:single', 100)
